@@ -25,6 +25,7 @@ COMPOUND = [
     "$.a | $.b", "$.a[*] | $.b[*]", "$.a[*] & $.b[*]", "$.a[*] & $.b[*] & $.c[*]", "$.a[*] | $.b[*] & $.c[*]", "$.a[*] & $.b[*] | $.c[*]",
     "$.a[*] | $.b[*] | $.c[*]", "$..a | $..b", "$.* & $..*", "^[0] | $.a", "$.a[*] & ^[0].b[*]", "$[?@.a] | $[?@.b]", "$.a[*] | $.a[*]",
     "$.a[*] & $.a[*] & $.a[*] & $.b[*]", "$.x | $.y | $.z | $.a | $.b",
+    "$.a | ^[?@.k == 1]", "^[?@.k == 1] | $.a", "^[?@.a] & $", "$.* & ^[0].*", "^[0].a[*] | $.b[*] | ^[?@.s]", "$[?@.a || @.b] | $[?@.a && @.b]",
 ]
 
 DOCS = [
